@@ -185,3 +185,26 @@ func Mutate(t *rapid.T, label string, b []byte) Mutation {
 		}
 	}
 }
+
+// specialECScalars: per NIST curve (by coordinate size in bytes), the smallest scalars k >= 2 for
+// which the first byte of x(kG) resp. y(kG) is 0x00, 0x01, 0x02, 0x03, 0x04, 0x7f, 0x80 or 0xff -
+// bytes that point / integer encoders and parsers treat specially (leading zero, SEC1 format
+// markers, sign boundary).  Found by search; P-521 coordinates start with 0x00 or 0x01.
+var specialECScalars = map[int][]int{
+	32: {379, 43, 478, 531, 537, 627, 165, 93, 106, 349, 594, 147, 94, 289, 172, 316},
+	48: {197, 176, 166, 349, 453, 81, 143, 112, 253, 89, 32, 557, 946, 282, 627, 351},
+	66: {2, 3},
+}
+
+// SpecialECScalar returns, once in `oneIn` draws, a fixed-width scalar whose public point has a
+// coordinate starting with a special byte (see specialECScalars); ok is false otherwise.
+func SpecialECScalar(t *rapid.T, label string, size, oneIn int) (scalar []byte, ok bool) {
+	tab, has := specialECScalars[size]
+	if !has || rapid.IntRange(0, oneIn-1).Draw(t, label+"_special_point") != 0 {
+		return nil, false
+	}
+	k := rapid.SampledFrom(tab).Draw(t, label+"_special_scalar")
+	out := make([]byte, size)
+	out[size-2], out[size-1] = byte(k>>8), byte(k)
+	return out, true
+}
